@@ -18,7 +18,7 @@ from .. import gen as G
 
 PID = 'C09'
 RULE = ('cases = (closure class or alias, hard-core flag, grid length 1-2048, gamma of scale 1e-4..50 with both signs (10 % integer-dtype arrays), potential kind '
-        'finite random | hard-core step (1e6 or +inf) + tail | zero | weak, grids starting at dr or at r = 0, sigma below/inside/on/above the grid); each case runs the direct call, '
+        'finite random | hard-core step (1e6 or +inf) + tail | zero | weak, grids starting at dr or at r = 0, sigma below/inside/on/above the grid or a hair (1 ulp .. 1e-5 relative) below/above a grid value); each case runs the direct call, '
         'permuted/subsampled/one-element-at-a-time calls, a re-use of the same object with another potential and sigma, the alias, a read-only replica and the weak-coupling limit; non-trivial = gamma '
         'not identically zero and potential not identically zero; distinct = distinct case digests')
 ASSUMPTIONS = ['published relations: PY (e^-u - 1)(1+gamma); HNC e^(gamma-u)-1-gamma; MSA -u; MS exp(sqrt(1+2(gamma-u))-1)-1-gamma',
@@ -129,7 +129,7 @@ def cases(ctx):
         yield {'clo': NAMES[it % 4], 'hc': bool(rng.random() < 0.6), 'alias': bool(rng.random() < 0.4),
                'L': int(rng.choice([1, 2, 3, 17, 64, 100, 256, int(rng.integers(1, 2049))])) if ctx.thorough() else int(rng.choice([1, 2, 3, 17, 64, 100, 256, int(rng.integers(1, 400))])),
                'gscale': float(10 ** rng.uniform(-4, np.log10(50))), 'pot': str(rng.choice(['finite', 'step', 'zero', 'weak', 'steptail', 'step_inf'])), 'r0': bool(rng.random() < 0.15),
-               'sig': str(rng.choice(['inside', 'ongrid', 'below', 'above', 'inside'])), 'seed': int(rng.integers(0, 2 ** 31)),
+               'sig': str(rng.choice(['inside', 'ongrid', 'below', 'above', 'inside', 'just_below', 'just_above'])), 'seed': int(rng.integers(0, 2 ** 31)),
                'gdtype': 'int' if rng.random() < 0.1 else 'float'}
 
 
@@ -145,6 +145,11 @@ def run_case(ctx, case):
         sigma = float(rng.uniform(r[0], r[-1])) if L > 1 else float(r[0] * rng.uniform(0.5, 1.5))
     elif sk == 'ongrid':
         sigma = float(r[int(rng.integers(0, L))])
+    elif sk in ('just_below', 'just_above'):
+        # sigma a hair away from a grid value (the literal r > sigma of the statement decides, no tolerance at this level)
+        x = float(r[int(rng.integers(0, L))])
+        dlt = float(rng.choice([0.0, 1e-15, 1e-12, 1e-9, 2e-6, 1e-5])) * max(abs(x), dr)
+        sigma = (float(np.nextafter(x, -np.inf)) - dlt) if sk == 'just_below' else (float(np.nextafter(x, np.inf)) + dlt)
     elif sk == 'below':
         sigma = float(r[0] * 0.5)
     else:
